@@ -34,3 +34,8 @@ Definition check_href (i : str * str) (o : str * str * str) : bool :=
   let '(f, t) := i in
   let '(p, r, u) := o in
   str_eqb (href_parent f) p && str_eqb (href_relative f t) r && str_eqb (href_relative_url f t) u.
+
+(** The path a URL parser computes for the link [relative_url(from, to)] found on the page whose
+    (percent-encoded) address is [quote from]. *)
+Definition check_link (i : str * str) (p : str) : bool :=
+  str_eqb (url_resolve (quote (fst i)) (href_relative_url (fst i) (snd i))) p.
